@@ -101,10 +101,23 @@ func (vfs *MemFS) VerifCheck() []string {
 		walk(vn[i], r, 0)
 	}
 
+	byID := map[uint64][]string{}
+
 	for fn, paths := range refs {
+		sort.Strings(paths)
+
 		if fn.nlink != len(paths) {
-			sort.Strings(paths)
 			bad = append(bad, fmt.Sprintf("link counter %d != %d directory entries %v", fn.nlink, len(paths), paths))
+		}
+
+		// SameFile compares ids: two different nodes with one id are "the same file"
+		byID[fn.id] = append(byID[fn.id], paths[0])
+	}
+
+	for id, firsts := range byID {
+		if len(firsts) > 1 {
+			sort.Strings(firsts)
+			bad = append(bad, fmt.Sprintf("file id %d is shared by different files %v", id, firsts))
 		}
 	}
 
